@@ -205,6 +205,40 @@ func runOne(st Stim, transport string) Trace {
 				p.notify(tok, uint32(e.Seq), "n")
 				applied = true
 			}
+		case "cancelgiveup":
+			mu.Lock()
+			o := obsH[e.K]
+			mu.Unlock()
+			if o != nil {
+				cctx, ccancel := context.WithCancel(context.Background())
+				done := make(chan error, 1)
+				go func() { done <- o.Cancel(cctx) }()
+				// the deregistration goes out (datagram: it is acknowledged), nobody answers it, the caller gives up
+				var mid int32
+				var tok []byte
+				if hooks.WaitFor(conns.WD, func() bool {
+					p.settle()
+					t, m, found := p.findRequest(path, 1)
+					tok, mid = t, m
+					return found
+				}) {
+					p.ack(mid, tok)
+				}
+				ccancel()
+				select {
+				case err := <-done:
+					mu.Lock()
+					if err != nil {
+						canc[e.K] = "err"
+					} else {
+						canc[e.K] = "ok"
+					}
+					mu.Unlock()
+				case <-time.After(conns.WD):
+					tr.Hung = true
+				}
+				applied = true
+			}
 		case "cancel":
 			mu.Lock()
 			o := obsH[e.K]
